@@ -145,3 +145,11 @@ package utils
 //@ func time.Now
 //@ trusted "stdlib: reads the clock, writes no program state"
 //@ pure
+
+//@ effectfree path/filepath\..* path\..*
+
+//@ func bytes.NewBuffer
+//@ inline
+
+//@ func (*bytes.Buffer).String
+//@ inline
